@@ -124,6 +124,60 @@ def recent_monitor(part, case, canon, final, shadows):
     return arrived_unselected and selections >= 2
 
 
+async def gone_connection(part, r):
+    """a connection that has gone away no longer counts as a selection of the mailbox - however it went (LOGOUT, end of stream, a task cancelled) and whatever
+    it did last (a refused, an unparseable command).  Run with the cyclic garbage collector switched off: a selection that is only *collected* away is still
+    counted until the collector happens to run, and a delivery in between is credited to nobody"""
+    import gc
+    from pymap.imap import IMAPServer
+    from .common import wire, backends
+    be, config = await backends.make_dict(users=[('u', 'p', ())], bad_command_limit=None)
+    srv = IMAPServer(be.login, config)
+    last = r.choice([b'a3 FETCH 1 (BODY[', b'a3 NOOP', b'a3 XYZZY', b'a3 FETCH 1 (FLAGS', b'a3 SELECT nosuch', b'a3 STORE 1 +FLAGS (\\Seen', b'a3 FETCH 9 (FLAGS)', b'a3 SEARCH (', b'a3 IDLE',
+                     b'a3 EXAMINE INBOX', b'a3 COPY 1 nosuch', b'a3 APPEND INBOX {3}'])
+    how = r.choice(['eof', 'eof', 'logout', 'cancel'])
+    if how == 'cancel' and last.endswith(b'IDLE'):
+        # a connection *task* cancelled while idling is a server shutting down, not a client going away: the idler's helper task outlives it for a few turns
+        how = 'eof'
+    case = dict(scenario='gone-connection', last=last.decode('latin1'), how=how)
+    gc.collect()
+    gc.disable()
+    try:
+        a = wire.Client(srv)
+        await a.start()
+        await a.send(b'a LOGIN u p\r\n')
+        await a.send(b'a SELECT INBOX\r\n')
+        await a.send(last + b'\r\n')
+        if how == 'logout' and not a.task.done():
+            if last.endswith(b'IDLE'):
+                await a.send(b'DONE\r\n')
+            await a.send(b'a LOGOUT\r\n')
+        if how == 'cancel':
+            a.task.cancel()
+        try:
+            await a.eof() if how != 'cancel' else await a.finish()
+        except BaseException:      # noqa
+            pass
+        del a
+        b = wire.Client(srv)
+        await b.start()
+        await b.send(b'b LOGIN u p\r\n')
+        await b.send(b'b APPEND INBOX {9+}\r\nA: b\r\n\r\nx\r\n')
+        c = wire.Client(srv)
+        await c.start()
+        await c.send(b'c LOGIN u p\r\n')
+        out = await c.send(b'c SELECT INBOX\r\n')
+        part.case(key=f'gone:{last!r}:{how}', nontrivial=True, sample=case)
+        part.stat('gone-connection')
+        if b'* 1 RECENT' not in out:
+            part.violation('monitor', f'a connection selected INBOX, sent {last!r} and went away ({how}); a message delivered afterwards is not \\Recent for the next session to select the mailbox: '
+                           f'{[l for l in out.split(b"\r\n") if b"RECENT" in l or b"EXISTS" in l]} - it was credited to the connection that is gone', case, signature='recent-to-gone-connection')
+        await b.eof()
+        await c.eof()
+    finally:
+        gc.enable()
+
+
 def worker(job):
     seed, ncases, maxlen, corpus = job
     r = random.Random(seed)
@@ -182,6 +236,9 @@ def worker(job):
             nt = recent_monitor(part, case, canon, final, shadows)
             part.case(key=backend + repr(ext), nontrivial=bool(nt), sample=dict(backend=backend, nsess=nsess, program=[' '.join(map(str, o)) for o in ext[:10]]))
             part.stat('backend:' + backend)
+    for k in range(max(3, ncases // 5)):
+        with guarded(part, 'C17 gone connection', dict(scenario='gone-connection', seed=seed, k=k)):
+            asyncio.run(gone_connection(part, r))
     return part.result()
 
 
